@@ -437,6 +437,23 @@ func solveUnit(vc *VC, opts SolveOpts) map[int]bool {
 				go func(o *Oblig) {
 					defer wg.Done()
 					// first on the sliced hypothesis set, then on the full one
+					if o.Status == "unsat" && opts.AllSolvers {
+						// thorough tier cross-check of an obligation the primary solver
+						// already discharged: every back end gets a short budget; only a
+						// contradicting `sat` changes the verdict
+						prev := *o
+						cross := opts
+						cross.RecheckMs = 5000
+						recheck(vc, hdr+vc.slicedAsserts(sl, o), o, cross)
+						if o.Status != "disagree" && o.Status != "sat" {
+							note := o.Note
+							*o = prev
+							o.Note = "cross-check: " + note
+						} else {
+							o.Status = "disagree"
+						}
+						return
+					}
 					// (the sliced set can lack a needed hypothesis: short budget there)
 					short := opts
 					if short.RecheckMs > 3000 && !opts.AllSolvers {
